@@ -113,15 +113,22 @@ func (d *DNSFilter) filterSetProperties(
 		flt.URL,
 	)
 
-	defer func(oldURL, oldName string, oldEnabled bool, oldUpdated time.Time, oldRulesCount int) {
+	defer func(
+		oldURL, oldName string,
+		oldEnabled bool,
+		oldUpdated time.Time,
+		oldRulesCount int,
+		oldChecksum uint32,
+	) {
 		if err != nil {
 			flt.URL = oldURL
 			flt.Name = oldName
 			flt.Enabled = oldEnabled
 			flt.LastUpdated = oldUpdated
 			flt.RulesCount = oldRulesCount
+			flt.checksum = oldChecksum
 		}
-	}(flt.URL, flt.Name, flt.Enabled, flt.LastUpdated, flt.RulesCount)
+	}(flt.URL, flt.Name, flt.Enabled, flt.LastUpdated, flt.RulesCount, flt.checksum)
 
 	flt.Name = newList.Name
 
